@@ -542,7 +542,7 @@ def plan(tier):
     small = ["obs", "fcst", "p1", "e0"]
     p = [("text-1", h_single, {"via": "text", "marks": 1, "fields": FIELDS, "agg": True}),
          ("nc-1", h_single, {"via": "nc", "marks": 1, "fields": FIELDS}),
-         ("text-2", h_single, dict({"via": "text", "marks": 2, "fields": ["obs", "fcst"] if q else ["obs", "fcst", "pit", "p1", "e0"], "enc_all": not q},
+         ("text-2", h_single, dict({"via": "text", "marks": 2, "fields": ["obs", "fcst"] if q else ["obs", "fcst", "pit", "p1", "e0"], "enc_all": False},
                                    **({"encs_first": ["-999", "NA", "inf", "<absent-row>"]} if q else {}))),
          ("nc-2", h_single, dict({"via": "nc", "marks": 2, "fields": ["fcst", "e0"] if q else ["obs", "fcst", "p1", "q0.1", "e0"]},
                                  **({"encs_first": ["nan", "masked", "fill", "-inf"]} if q else {}))),
